@@ -1890,7 +1890,8 @@ THEOREMS = {
             "Iauthd.Properties.C04_others", "Iauthd.Proto.parseTag_range", "Iauthd.Proto.validateRequest_serial", "Iauthd.Proto.parseTag_routing",
             "Iauthd.Properties.C04_tag_readback", "Iauthd.Properties.C04_tag_injective",
             "Iauthd.Properties.C04_slots_alive", "Iauthd.Properties.C04_reload_slots", "Iauthd.Properties.C04_tag_readers_agree", "Iauthd.Proto.runOps_refd",
-            "Iauthd.Proto.applyConfig_ref", "Iauthd.Proto.xqReply_ref", "Iauthd.Proto.reqEvent_ref"],
+            "Iauthd.Proto.applyConfig_ref", "Iauthd.Proto.xqReply_ref", "Iauthd.Proto.reqEvent_ref",
+            "Iauthd.Properties.C04_stray_line", "Iauthd.Properties.C04_history_insert", "Iauthd.Proto.onReply_stray"],
     "C05": ["Iauthd.Properties.C05_refusal", "Iauthd.Properties.C05_vouch", "Iauthd.Properties.C05_stamp_shape",
             "Iauthd.Properties.C05_blank_is_plain", "Iauthd.Properties.C05_dronecheck_no_stamp", "Iauthd.Proto.okStamp_some",
             "Iauthd.Properties.C05_ok_readers_agree", "Iauthd.Properties.okStamp_isSome"],
@@ -1950,7 +1951,8 @@ def lean_modules(prop):
         ["Iauthd.Proto.Count10", "Iauthd.Properties.C01"] if prop == "C10" else []) + (
         ["Iauthd.Proto.Settle03", "Iauthd.Proto.Settle03H", "Iauthd.Proto.RenderInv", "Iauthd.Proto.RenderStep", "Iauthd.Proto.Render",
          "Iauthd.Proto.RenderHex", "Iauthd.Proto.RenderLines"] if prop == "C03" else []) + (
-        ["Iauthd.Proto.RefInv", "Iauthd.Proto.RefInvH"] if prop == "C04" else []) + (
+        ["Iauthd.Proto.RefInv", "Iauthd.Proto.RefInvH", "Iauthd.Proto.Stray04", "Iauthd.Proto.Sim01", "Iauthd.Proto.Spec01", "Iauthd.Proto.RenderDec",
+         "Iauthd.Proto.Parse01", "Iauthd.Proto.Trace01"] if prop == "C04" else []) + (
         ["Iauthd.Proto.RefInv", "Iauthd.Proto.RefInvH", "Iauthd.Proto.Rel07", "Iauthd.Proto.Keep07", "Iauthd.Proto.Hist07", "Iauthd.Proto.Start07", "Iauthd.Proto.Link07",
          "Iauthd.Proto.Render", "Iauthd.Proto.RenderHex", "Iauthd.Proto.RenderLines", "Iauthd.Proto.RenderInv", "Iauthd.Proto.RenderStep",
          "Iauthd.Proto.Sim01", "Iauthd.Properties.C10"] if prop == "C07" else []) + ["Iauthd.Properties." + prop]
